@@ -54,6 +54,7 @@ type behaviour struct {
 	Lpc         string   `json:"lpc"`
 	Subs        []int    `json:"subs"`
 	Tries       int      `json:"tries"`
+	Full        []string `json:"full"` // roles parked at a signal send on a full channel after the last step
 }
 
 type caseResult struct {
@@ -306,6 +307,23 @@ func runReplay(b behaviour) caseResult {
 		done++
 	}
 
+	// the send on a full signal channel must not block (one gated step per such role)
+	if drift == "" {
+		for _, r := range b.Full {
+			since := e.ctl.arrivals(r)
+			if !e.ctl.release(r) {
+				continue
+			}
+			var done func() bool
+			if w := apps[r]; w != nil {
+				done = w.idle
+			}
+			if bl := e.waitOrBlocked(r, since, done, ""); bl != "" {
+				drift = fmt.Sprintf("BLOCKED %s sending a signal on a full channel: %s", r, bl)
+				break
+			}
+		}
+	}
 	// ---- final phase: let everything run and observe ----
 	e.ctl.note("main", "replay.freerun", map[string]any{"steps": done, "drift": drift})
 	e.ctl.releaseAll()
